@@ -112,6 +112,7 @@ func main() {
 	start := time.Now()
 	c := &Ctx{Prop: spec.ID, Tier: *tier, counts: map[string]int{}, minima: map[string]int{}, verifDir: *verif}
 	cmdline := "vxcheck " + strings.Join(os.Args[1:], " ")
+	loadNeedSSA = spec.NeedSSA
 	p, err := Load(abs, *goos, spec.NeedSSA)
 	if err != nil {
 		c.P = &Program{Repo: abs, GOOS: *goos}
